@@ -226,6 +226,9 @@ fn check_pair(a: &[u32], b: &[u32], id: u32, ctor: u8, stats: &mut Stats) -> Che
     if sa.len() == sb.len() && sa != sb {
         stats.label("pair:equal-length");
     }
+    if !sa.is_empty() && !sb.is_empty() && (sa.len() * 4 < sb.len() || sb.len() * 4 < sa.len()) && !sa.is_subset(&sb) && !sb.is_subset(&sa) {
+        stats.label("pair:unbalanced-not-nested");
+    }
     if nontrivial {
         stats.label("nontrivial");
         stats.nontrivial(hash_json(&(a, b, id)));
@@ -324,7 +327,7 @@ fn pair_strategy() -> impl Strategy<Value = Case> {
     (
         vec(any::<u16>(), 0..70),
         vec(any::<(bool, bool)>(), 70),
-        0u8..6,
+        0u8..7,
         any::<u16>(),
         any::<u8>(),
     )
@@ -349,6 +352,11 @@ fn pair_strategy() -> impl Strategy<Value = Case> {
                     3 => { a.push(*v); b.push(*v) }
                     // one empty
                     4 => a.push(*v),
+                    // unbalanced: a few ids against many, partially overlapping
+                    6 => {
+                        if i % 9 == 0 && ma { a.push(*v) }
+                        if mb || i % 9 != 0 { b.push(*v) }
+                    }
                     // equal length (fixed up below)
                     _ => {
                         if ma { a.push(*v) } else { b.push(*v) }
@@ -392,7 +400,7 @@ impl Property for C12 {
         "C12"
     }
     fn rule(&self) -> String {
-        "Generated: (a) operation sequences over one HpoGroup (insert with return value, contains, get, clear, full well-formedness snapshot) with ids from a 96-entry pool (dense block, neighbours, 0, 9_999_999, 10^7, u32::MAX), up to 120 ops, sizes crossing the inline limit 30; (b) pairs of id multisets in the classes overlap / disjoint / nested / equal / one empty / equal length, built through 7 constructors (From<Vec<u32>>, From<Vec<HpoTermId>>, From<HashSet>, FromIterator<HpoTermId>, FromIterator<HpoTerm>, with_capacity+insert, reversed insert) and pushed through every ownership variant of |, &, + id, | id; (c) all ordered pairs of terms of generated DAGs through the 8 ancestor-query methods. Oracle: BTreeSet<u32>; every result must iterate strictly ascending, agree on len/is_empty/get/contains (also for neighbours of each element). evaluations = ops + operator results + ancestor queries. Non-trivial = an operand longer than 30, equal-length different operands, or a non-empty intersection smaller than both operands (pairs); op sequence reaching length > 30; DAG with a diamond. Distinct by hash of the case.".into()
+        "Generated: (a) operation sequences over one HpoGroup (insert with return value, contains, get, clear, full well-formedness snapshot) with ids from a 96-entry pool (dense block, neighbours, 0, 9_999_999, 10^7, u32::MAX), up to 120 ops, sizes crossing the inline limit 30; (b) pairs of id multisets in the classes overlap / disjoint / nested / equal / one empty / equal length / unbalanced (one operand more than 4x longer, not nested), built through 7 constructors (From<Vec<u32>>, From<Vec<HpoTermId>>, From<HashSet>, FromIterator<HpoTermId>, FromIterator<HpoTerm>, with_capacity+insert, reversed insert) and pushed through every ownership variant of |, &, + id, | id; (c) all ordered pairs of terms of generated DAGs through the 8 ancestor-query methods. Oracle: BTreeSet<u32>; every result must iterate strictly ascending, agree on len/is_empty/get/contains (also for neighbours of each element). evaluations = ops + operator results + ancestor queries. Non-trivial = an operand longer than 30, equal-length different operands, or a non-empty intersection smaller than both operands (pairs); op sequence reaching length > 30; DAG with a diamond. Distinct by hash of the case.".into()
     }
     fn assumptions(&self) -> Vec<String> {
         vec![
@@ -406,7 +414,7 @@ impl Property for C12 {
         }
     }
     fn required_labels(&self, _tier: Tier) -> Vec<&'static str> {
-        vec!["nontrivial", "ops:len>30", "pair:operand>30", "pair:equal-length", "pair:disjoint", "pair:nested", "pair:equal", "pair:empty-operand", "terms:diamond"]
+        vec!["nontrivial", "ops:len>30", "pair:operand>30", "pair:equal-length", "pair:unbalanced-not-nested", "pair:disjoint", "pair:nested", "pair:equal", "pair:empty-operand", "terms:diamond"]
     }
     fn run_generated(&self, tier: Tier, seed: u64, n: u64, stats: &mut Stats) -> Option<(Value, Failure)> {
         run_typed(strategy(tier), seed, n, stats, check)
